@@ -99,10 +99,16 @@ def run_bitlength(ctx):
             if any(v is None for v in vals):
                 return None
             if all(vals):
-                hits.append(rd.kind)
-        if len(hits) != 1 or hits[0] not in ("true", "false"):
+                if rd.kind in ("true", "false"):
+                    hits.append(rd.kind == "true")
+                else:
+                    v = _evn(rd.expr, env) if rd.expr is not None else None
+                    if v is None:
+                        return None
+                    hits.append(bool(v))
+        if len(hits) != 1:
             return None
-        return hits[0] == "true"
+        return hits[0]
 
     # argument of every validity check reachable from the codec pair, as a function of n = bits
     def direct_args(f, param_is_len):
